@@ -113,6 +113,8 @@ def run(module, cfg, workers=None, timeout=600, extra_files=None, tlc_args=None,
         res.violation = (m.group(1).strip() if m else 'action-property')
     elif 'Temporal properties were violated' in out:
         res.violation = 'temporal'
+    elif re.search(r'Error: Postcondition .* is false', out):
+        res.violation = 'postcondition'
     elif 'Error: Deadlock reached' in out:
         res.violation = 'deadlock'
     elif re.search(r'Error: The (first|second) argument of Assert evaluated to FALSE|Assert.*failed|The postcondition.*violated|Error: Evaluating assumption', out):
